@@ -1,1 +1,80 @@
-// harnesses for vub_bitmap
+// Child module of vhost_user_backend::bitmap.  C15: the page arithmetic of the dirty log, bit-exactly.
+use super::*;
+use std::mem::ManuallyDrop;
+use vm_memory::{GuestAddress, GuestRegionMmap, MmapRegion};
+
+unsafe extern "C" fn one_page(_name: libc::c_int) -> libc::c_long {
+    1 // "page size" 1 for MmapRegion::build_raw's alignment check (the mapping is never dereferenced)
+}
+fn no_alloc_error(_l: std::alloc::Layout) -> ! {
+    kani::assume(false);
+    loop {}
+}
+static mut BACKING: ([u8; 16], u64) = ([0; 16], 0x6269_746d_6170_0001);
+
+// @harness props=C15 tier=quick timeout=900 bound="log window of 4 bytes (32 pages) inside a 6-byte array with guard bytes; one guest region of 1..=40 pages starting at page 0..=39 (page-aligned); symbolic slice base, write offset and length over all of usize; arbitrary initial log contents; every one of the 32 bits checked" stubs="sysconf (page size), handle_alloc_error"
+#[kani::proof]
+#[kani::unwind(44)]
+#[kani::stub(libc::sysconf, one_page)]
+#[kani::stub(std::alloc::handle_alloc_error, no_alloc_error)]
+fn c15_u_mark_dirty() {
+    let init: [u8; 6] = kani::any();
+    let log: [AtomicU8; 6] = [
+        AtomicU8::new(init[0]), AtomicU8::new(init[1]), AtomicU8::new(init[2]),
+        AtomicU8::new(init[3]), AtomicU8::new(init[4]), AtomicU8::new(init[5]),
+    ];
+    // the mapping is bytes 1..5; bytes 0 and 5 are guards
+    // SAFETY: in bounds of `log`
+    let logmem = ManuallyDrop::new(Arc::new(MmapLogReg { addr: unsafe { log.as_ptr().add(1) }, len: 4 }));
+    let s: usize = kani::any();
+    let n: usize = kani::any();
+    kani::assume(s <= 39 && n >= 1 && n <= 40);
+    #[allow(static_mut_refs)]
+    // SAFETY: address only, never dereferenced
+    let region = unsafe { MmapRegion::<()>::build_raw(BACKING.0.as_mut_ptr(), n * 4096, 0, 0) }.unwrap();
+    let gr = ManuallyDrop::new(GuestRegionMmap::new(region, GuestAddress((s * 4096) as u64)).unwrap());
+    let bm = <AtomicBitmapMmap as MemRegionBitmap>::new(&*gr, Arc::clone(&logmem));
+    // C15: accepted iff the log covers the region's highest page
+    let fits = (s + n - 1) / 8 < 4;
+    kani::cover!(fits && n > 8);
+    match bm {
+        Err(e) => {
+            assert!(!fits, "C15: a log large enough for the highest guest page must be accepted");
+            std::mem::forget(e);
+        }
+        Ok(bm) => {
+            assert!(fits, "C15: a log too small for the highest guest page must be rejected");
+            let b = ManuallyDrop::new(BitmapMmapRegion { inner: Arc::new(RwLock::new(Some(bm))), base_address: 0 });
+            let base: usize = kani::any();
+            let sl = ManuallyDrop::new(b.slice_at(base));
+            let off: usize = kani::any();
+            let len: usize = kani::any();
+            sl.mark_dirty(off, len);
+            // oracle: pages of the region touched by [base+off, base+off+len)
+            let start = base.checked_add(off); // slice_at saturates; a saturated base cannot hold further bytes
+            let p: usize = kani::any();
+            kani::assume(p < 32);
+            let before = init[1 + p / 8] & (1 << (p % 8)) != 0;
+            let after = log[1 + p / 8].load(Ordering::Relaxed) & (1 << (p % 8)) != 0;
+            let touched = match start {
+                Some(st) if len > 0 && base != usize::MAX => {
+                    let first = st / 4096;
+                    let last = st.saturating_add(len - 1) / 4096;
+                    p >= s && p < s + n && (p - s) >= first && (p - s) <= last
+                }
+                _ => false,
+            };
+            if base != usize::MAX {
+                assert!(after == (before || touched), "C15: exactly the bits of the touched pages are set (bit gpa/4096, LSB first), no other bit changes");
+            } else {
+                assert!(!before || after, "C15: bits are never cleared");
+            }
+            assert!(log[0].load(Ordering::Relaxed) == init[0] && log[5].load(Ordering::Relaxed) == init[5], "C15: nothing outside the log mapping is touched");
+            // dirty_at agrees with the log for in-range offsets of the region
+            let probe: usize = kani::any();
+            kani::assume(probe < n * 4096);
+            let pp = s + probe / 4096;
+            assert!(b.dirty_at(probe) == (log[1 + pp / 8].load(Ordering::Relaxed) & (1 << (pp % 8)) != 0), "C15: dirty_at reads the bit of the page");
+        }
+    }
+}
